@@ -44,26 +44,41 @@ _ctg_parallel._IS_WORKER = True
 PROP = "C09"
 META = {
     "bounds": {
-        "quick": {"L": "3 (2 for the truncation-error identity, 4 for site subsets)", "bond dim": "2 (1+1 -> 2 for sums)",
-                  "phys dim": "2, one site-dependent case (2,3,2)", "boundaries": "open + periodic where the routine supports it",
-                  "entries": "conj-pair complex symbols (LAPACK-free goals), real symbols (stub goals)",
-                  "compression": "direct, dm, zipup x sweep direction; cutoff=0 with max_bond in {None, 1}"},
-        "thorough": {"L": "2-4", "bond dim": "1-2, bond-dependent (1,2)", "phys dim": "2, 3, (2,3,2)",
-                     "layouts": "every permutation of 'lrp', 8 permutations of 'lrud'",
-                     "compression": "adds two-layer MPO.MPS inputs, MPO inputs, L=3 two-bond truncation identity, complex entries"},
+        "quick": {"L": "3 (2 for normalize=True; 4-5 total sites for site subsets)", "bond dim": "2 (1 x 2 / 2 x 1 for two-layer inputs, 1+1 for sums), bond-dependent (1,2,1) once",
+                  "phys dim": "2, one site-dependent case (2,3,2)", "boundaries": "open + periodic wherever the routine supports it",
+                  "entries": "conj-pair complex symbols (LAPACK-free goals), real symbols (goals through the QR / SVD / eigh contracts)",
+                  "layouts": "3 of 6 'lrp' orders, 3 'lrud' orders",
+                  "compression": "direct, dm, zipup x both sweep directions; cutoff=0 with max_bond in {None, 1, 2}; inputs: MPS, sum (dm), "
+                                 "two-layer MPO.MPS, MPO; truncation-error identity for L = 2, 3; compress(form) / left_compress / right_compress / "
+                                 "compress_site / gate_with_mpo; options normalize, inplace, max_bond=2"},
+        "thorough": {"L": "2-4 (5 for constant-table generators)", "bond dim": "1-2, bond-dependent (1,2,1), (2,1,2,1)", "phys dim": "2, 3, (2,3,2), (2,3,2,3)",
+                     "layouts": "all 6 'lrp' orders, 8 'lrud' orders",
+                     "compression": "adds zipup-first, zipup-oversample, sdc, bond-4 two-layer inputs, MPO inputs with a cap, L = 4, complex entries, "
+                                    "every documented option (canonize, permute_arrays, site_tags, cutoff_mode), every gate_with_mpo entry point",
+                     "numeric only": "17 further (method, input) combinations incl. all iterative / randomised methods"},
     },
-    "outside": ["floating point rounding; convergence speed of iterative methods",
+    "outside": ["floating point rounding; convergence speed of iterative methods; dtype preservation (float32 / complex64)",
                 "iterative / randomised compression methods (fit, fit-zipup, fit-projector, fit-oversample, src, src-oversample, srcmps, "
-                "srcmps-oversample, sdc, sdc-oversample, zipup-oversample, autofit, projector): numeric cross-run only, tolerance 1e-4 "
-                "when nothing needs truncating + bond cap, no symbolic claim",
-                "the error *inequality* for truncation of more than one bond with respect to the singular values of the original state "
-                "(the check proves the stronger equality with the values actually discarded along the sweep)",
-                "transfer-matrix compression of long periodic expectation networks (expec_TN_1D(compress=True), n >= 100)",
-                "random generators (MPS_rand_state, MPO_rand, MPS_sampler, MPS_rand_computational_state)",
-                "jax / torch / block-sparse backends", "L = 1 chains and periodic chains of length 2 (double bond)"],
+                "srcmps-oversample, sdc-oversample, projector, local-early): numeric cross-run only (value reproduced to 1e-4 when the cap is "
+                "not binding, binding cap respected), no symbolic claim",
+                "deterministic methods with a *non-binding* cap on an inflated (rank-deficient) bond: exactness rests on discarded singular values "
+                "being zero, not derivable from the decomposition contracts: numeric cross-run only",
+                "compress=True of sums (add_MPS / add_MPO): block-diagonal site tensors defeat the certificate search (not mandatory, thorough); "
+                "the two halves (sum; compress of an arbitrary bond-2 chain) are certified separately",
+                "the error *inequality* with respect to the singular values of the original state (the check proves the stronger equality with the "
+                "values actually discarded along the sweep; the textbook bound follows by interlacing and is checked numerically)",
+                "the sign of the normalisation factor of normalize=True (numeric cross-run)",
+                "transfer-matrix compression of long periodic expectation networks (expec_TN_1D(compress=True), n >= 100); equalize_norms",
+                "random generators (MPS_rand_state, MPO_rand, MPS_rand_computational_state); MPS_sampler only through its norm",
+                "Hamiltonian MPO builders (MPO_ham_*, SpinHam1D)", "jax / torch / block-sparse backends",
+                "L = 1 chains and periodic chains of length 2 (double bond)",
+                "tensor_network_align(A, B) of two operators with default ids is rejected by the library (ambiguous ids): explicit ind_ids are supplied"],
     "assumptions": ["LAPACK qr / svd / eigh return factors meeting their documented contracts (stubs); QR stub has positive diagonal",
-                    "singular values / density matrix eigenvalues are strictly ordered positive symbols (generic full-rank input)",
-                    "contraction path optimisers only reorder exact sums of products (C01)"],
+                    "singular values are strictly positive ordered symbols (generic full-rank input); eigenvalues of reduced density matrices are "
+                    "non-negative ordered symbols",
+                    "Schmidt decomposition theorem: the singular values of the centre matrix of a state in mixed canonical form are its Schmidt "
+                    "coefficients (bipartite_schmidt_state: the certificate shows the gauge, the isometries and which matrix was decomposed)",
+                    "contraction path optimisers only reorder exact sums of products (C01); cotengra's path search runs serially in the workers"],
 }
 
 _Q = ("quick", "thorough")
@@ -283,9 +298,9 @@ def mps_constructor(mk, L, D, dims, cyclic, layout):
             mk.eq(f"permute_arrays({target}): array {i}", psi[i].data, np.transpose(arrays[i], _perm(src, dst)))
             names = {"p": psi.site_ind(i)}
             if "l" in lab:
-                names["l"] = psi.bond((i - 1) % L, i) if L > 2 or not cyclic else None
+                names["l"] = psi.bond((i - 1) % L, i)
             if "r" in lab:
-                names["r"] = psi.bond(i, (i + 1) % L) if L > 2 or not cyclic else None
+                names["r"] = psi.bond(i, (i + 1) % L)
             mk.same(f"permute_arrays({target}): labels of site {i}", tuple(psi[i].inds), tuple(names[c] for c in dst))
         mk.eq(f"permute_arrays({target}): value unchanged", vdense(psi), want)
     # other label / tag conventions
@@ -588,7 +603,9 @@ _FILLO = [
 ]
 
 
-@obligation(PROP, params=_FILLO)
+# (two names for one harness: the site-subset cases form their own obligation family)
+@obligation(PROP, name="mpo_fill_fn_site_subset", params=[p for p in _FILLO if p["sites"] is not None])
+@obligation(PROP, params=[p for p in _FILLO if p["sites"] is None])
 def mpo_from_fill_fn(mk, L, D, phys, cyclic, layout, sites):
     """MatrixProductOperator.from_fill_fn: requested shapes, structure and dense value"""
     mk.encodes(c1.MatrixProductOperator.from_fill_fn)
@@ -785,7 +802,7 @@ def apply_operator_to_state(mk, L, D, dims, cyclic):
     mk.same("A.apply(x): bond dimensions multiply", list(y.bond_sizes()), [_bd(D, j) ** 2 for j in range(nb)])
     mk.eq("A.apply(x) == A @ x", _flat(vdense(y)), want)
     mk.eq("A.apply(x).to_dense()", _flat(y.to_dense()), want)
-    mk.eq("operands untouched", (_flat(vdense(x)), ), (vx, ))
+    mk.eq("state untouched", _flat(vdense(x)), vx)
     mk.eq("operator untouched", odense(A), MA)
     y = A.apply(x, contract=False)
     mk.same("A.apply(x, contract=False): two tensors per site, site labels of x", (y.num_tensors, set(y.outer_inds())), (2 * L, sites))
@@ -1012,7 +1029,8 @@ def reduced_state_ref(v, dims, keep):
     return r.reshape(n, n)
 
 
-@obligation(PROP, params=[dict(p, kind=k) for p in _PT for k in ("cplx", "real")])
+@obligation(PROP, name="partial_trace_complex_state", params=[dict(p, kind="cplx") for p in _PT])
+@obligation(PROP, name="partial_trace_real_state", params=[dict(p, kind="real") for p in _PT])
 def partial_trace_to_operator(mk, L, keep, rescale, cyclic, kind):
     """partial_trace_to_mpo(keep): the reduced density operator of |psi><psi| on the kept sites"""
     mk.encodes(c1.MatrixProductState.partial_trace_to_mpo, tc.TensorNetwork.fuse_multibonds, c1.TensorNetwork1D.slice2sites)
@@ -1130,7 +1148,7 @@ def _basis(L, bits):
 def named_states(mk, L):
     """constant-table generators (numeric arrays whatever the mode): dense value == the explicit state"""
     mk.encodes(tb.MPS_computational_state, tb.MPS_neel_state, tb.MPS_ghz_state, tb.MPS_w_state, tb.MPS_zero_state, tb.MPS_COPY,
-               tb.MPS_product_state, c1.MatrixProductState.from_product)
+               tb.MPS_product_state, c1.MatrixProductState.from_product, tb.MPS_sampler)
     out = tuple(f"k{i}" for i in range(L))
 
     def chk(label, psi, want, Lx=L, bonds=None, dtype=None):
@@ -1173,6 +1191,9 @@ def named_states(mk, L):
         z = qtn.MPS_zero_state(L, bond_dim=bd, phys_dim=pd, cyclic=cyc)
         chk(f"MPS_zero_state(bond_dim={bd}, phys_dim={pd}, cyclic={cyc})", z, np.zeros(pd ** L), bonds=bd)
         mk.same(f"MPS_zero_state(cyclic={cyc}): cyclic flag", bool(z.cyclic), cyc)
+    for squeeze in (True, False):
+        smp = qtn.MPS_sampler(L, squeeze=squeeze)
+        mk.same(f"MPS_sampler(squeeze={squeeze}): <psi|psi> == 2^L whatever the draw", round(float(abs(smp.H @ smp)), 9), float(2 ** L))
     mk.same("norms: computational / ghz / w states are normalised",
             [round(float(abs(p.H @ p)), 12) for p in (qtn.MPS_computational_state("+" * L), qtn.MPS_ghz_state(L), qtn.MPS_w_state(L))], [1.0] * 3)
 
@@ -1304,13 +1325,13 @@ _DM_SPECTRUM = "nonneg"
 # inputs per method.  Sums of product states have block-diagonal site tensors: the structural zeros turn the QR contracts
 # into relations the certificate search cannot orient (the generic bond-2 state 'mps' subsumes them: the identity is proved
 # for every value of the entries); the eigh-based 'dm' route certifies them directly.
-_EXACT_INPUTS = {"direct": ("mps", "op1.vec2", "op2.vec1", "mpo"), "zipup": ("mps", "op1.vec2", "op2.vec1", "mpo"),
+_EXACT_INPUTS = {"direct": ("mps", "op1.vec2", "op2.vec1", "op2.vec2", "mpo"), "zipup": ("mps", "op1.vec2", "op2.vec1", "op2.vec2", "mpo"),
                  "dm": ("mps", "sum", "op1.vec2", "op2.vec1"), "zipup-first": ("mps",), "zipup-oversample": ("mps",), "sdc": ("mps",)}
 _EXACT = []
 for m_, inputs_ in _EXACT_INPUTS.items():
     for inp_ in inputs_:
         for rev_ in (False, True):
-            quick = m_ in _DIRECT and (inp_ == "mps" or (inp_ in ("sum", "op1.vec2") and not rev_ and m_ != "dm"))
+            quick = m_ in _DIRECT and (inp_ in ("mps", "sum") or (inp_ in ("op1.vec2", "mpo") and not rev_))
             if m_ == "zipup-oversample" and rev_:
                 continue
             _EXACT.append({"method": m_, "inp": inp_, "L": 3, "reverse": rev_, "_tiers": _Q if quick else _T})
@@ -1380,12 +1401,13 @@ _CAP = []
 for m_ in _DIRECT:
     for L_ in (2, 3):
         for rev_ in (False, True):
-            _CAP.append({"method": m_, "inp": "mps", "L": L_, "reverse": rev_, "kind": "real",
-                         "_tiers": _Q if (L_ == 2 or (not rev_ and m_ == "direct")) else _T})
+            _CAP.append({"method": m_, "inp": "mps", "L": L_, "reverse": rev_, "kind": "real", "_tiers": _Q})
 _CAP += [{"method": m_, "inp": "op1.vec2", "L": 3, "reverse": False, "kind": "real", "_tiers": _T} for m_ in _DIRECT]
 _CAP += [{"method": m_, "inp": "mps", "L": 2, "reverse": False, "kind": "cplx", "_tiers": _T} for m_ in ("direct", "zipup")]
 _CAP += [{"method": m_, "inp": "mps", "L": 3, "reverse": r_, "kind": "real", "_tiers": _T} for m_ in ("zipup-first", "sdc") for r_ in (False, True)]
 _CAP += [{"method": "direct", "inp": "mps", "L": 4, "reverse": False, "kind": "real", "_tiers": _T}]
+_CAP += [{"method": m_, "inp": i_, "L": 3, "reverse": r_, "kind": "real", "_tiers": _T}
+         for m_ in ("direct", "zipup") for (i_, r_) in (("mpo", False), ("mpo", True), ("op2.vec2", False))]
 
 
 @obligation(PROP, params=_CAP, rounds=2, rounds2=3, timeout_s=600, max_rows=60000, wall_s=500)
@@ -1393,7 +1415,7 @@ def compress_capped(mk, method, inp, L, reverse, kind):
     """tensor_network_1d_compress(max_bond=1, cutoff=0) of a bond-2 state: cap respected, canonical form, and
     ||psi - psi'||^2 == sum of the squared singular values discarded along the sweep (canonical methods)"""
     mk.encodes(cp.tensor_network_1d_compress, cp._TN1D_COMPRESS_METHODS[method], tc.tensor_compress_bond, tc.tensor_split)
-    tn, va, out, _ = _compress_input(mk, inp, L, kind)
+    tn, va, out, okind = _compress_input(mk, inp, L, kind)
     if method == "dm":
         stubs.OPTIONS["eigh_spectrum"] = _DM_SPECTRUM
     try:
@@ -1403,15 +1425,15 @@ def compress_capped(mk, method, inp, L, reverse, kind):
     finally:
         stubs.OPTIONS["eigh_spectrum"] = "real"
     tag = f"{method}{'/reverse' if reverse else ''} max_bond=1"
-    _structure_goals(mk, tag, c, L, out, "vec")
+    _structure_goals(mk, tag, c, L, out, okind)
     mk.same(f"{tag}: bond cap respected", c.max_bond() <= 1, True)
     canonical_goals(mk, tag, c, "left" if reverse else "right", L)
-    vc = vdense(c)
+    vc = ref.tn_dense(c, out)
     diff = _flat(va - vc)
     err2 = inner(diff, diff)
     # the error identity holds for the methods that truncate in an exactly canonical gauge: direct and dm on any input,
     # zipup on a single-layer state (its pseudo-canonical gauge is then the canonical one)
-    canonical_method = method in ("direct", "dm") or (method == "zipup" and inp == "mps")
+    canonical_method = method in ("direct", "dm") or (method == "zipup" and inp in ("mps", "mpo"))
     if not canonical_method:
         return
     if mk.sym and inp != "mps":
@@ -1422,10 +1444,17 @@ def compress_capped(mk, method, inp, L, reverse, kind):
         mk.same(f"{tag}: one truncating decomposition per bond", sorted(fams.values()), [2] * (L - 1))
         mk.eq(f"{tag}: ||psi - psi'||^2 == sum of discarded squared singular values", err2, disc)
     else:
-        refstate, disc = _sequential_truncation_ref(va, reverse)
+        def per_site(x):      # one axis per site (an operator site groups its upper and lower label)
+            x = np.asarray(x)
+            if okind == "op":
+                x = np.transpose(x, [j for i in range(L) for j in (i, L + i)]).reshape((4,) * L)
+            return x
+        pa, pc = per_site(va), per_site(vc)
+        refstate, disc = _sequential_truncation_ref(pa, reverse)
         mk.eq(f"{tag}: ||psi - psi'||^2 == sum of discarded squared singular values", err2, disc, tol=1e-9)
-        mk.eq(f"{tag}: result == sequential best rank-1 truncation (plain numpy)", vc, refstate, tol=1e-8)
-        s_orig = [np.linalg.svd(np.asarray(va).reshape(2 ** k, -1), compute_uv=False) for k in range(1, L)]
+        mk.eq(f"{tag}: result == sequential best rank-1 truncation (plain numpy)", pc, refstate, tol=1e-8)
+        dloc = pa.shape[0]
+        s_orig = [np.linalg.svd(pa.reshape(dloc ** k, -1), compute_uv=False) for k in range(1, L)]
         bound = sum(float(np.sum(s[1:] ** 2)) for s in s_orig)
         mk.same(f"{tag}: error within the bound from the singular values of the original state",
                 bool(float(abs(err2)) <= bound * (1 + 1e-9) + 1e-14), True)
@@ -1436,15 +1465,16 @@ def compress_capped(mk, method, inp, L, reverse, kind):
 _FORMS = [("right", 3), ("left", 3), (None, 3), (1, 3), (0, 3), (2, 3), ("flat", 3), ("left", 4), (2, 4), ("right", 2)]
 
 
-@obligation(PROP, params=[{"form": f, "L": L, "what": w, "_tiers": _Q if (L == 3 and w == "mps" and f in ("right", "left", 1, "flat")) else _T}
-                          for (f, L) in _FORMS for w in ("mps", "mpo") if not (w == "mpo" and (L != 3 or f in (0, 2, None)))],
+@obligation(PROP, params=[{"form": f, "L": L, "what": w, "kind": "real", "_tiers": _Q if (L == 3 and f in ("right", "left", 1, "flat")) else _T}
+                          for (f, L) in _FORMS for w in ("mps", "mpo") if not (w == "mpo" and (L != 3 or f in (0, 2, None)))]
+            + [{"form": f, "L": 3, "what": "mps", "kind": "cplx", "_tiers": _T} for f in ("right", "left", 1, "flat")],
             rounds=2, timeout_s=600, max_rows=60000, wall_s=500)
-def class_compress(mk, form, L, what):
+def class_compress(mk, form, L, what, kind):
     """MatrixProductState.compress / MatrixProductOperator.compress(form, cutoff=0): value unchanged, promised form"""
     mk.encodes(c1.TensorNetwork1DFlat.compress, c1.TensorNetwork1DFlat.left_compress, c1.TensorNetwork1DFlat.right_compress,
                c1.TensorNetwork1DFlat.left_compress_site, c1.TensorNetwork1DFlat.right_compress_site,
                c1.TensorNetwork1DFlat.left_canonicalize, c1.TensorNetwork1DFlat.right_canonicalize, tc.tensor_compress_bond)
-    tn, want, out, kind = _compress_input(mk, what, L)
+    tn, want, out, kind = _compress_input(mk, what, L, kind)
     c = tn.copy()
     r = c.compress(form=form, cutoff=0.0)
     mk.same("in place, returns None", r is None, True)
@@ -1529,7 +1559,7 @@ def arithmetic_with_compress(mk, case):
     canonical_goals(mk, f"{case}(compress=True)", c, "right", L)     # compress() defaults to the right canonical form
 
 
-_GATE = [{"entry": e, "_tiers": _Q if e in ("gate_with_mpo:direct", "mps_gate_with_mpo_zipup") else _T}
+_GATE = [{"entry": e, "_tiers": _Q if e in ("gate_with_mpo:direct", "gate_with_mpo:dm", "mps_gate_with_mpo_zipup") else _T}
          for e in ("gate_with_mpo:direct", "gate_with_mpo:dm", "gate_with_mpo:zipup", "gate_with_mpo:zipup-first", "gate_with_mpo:direct:transpose",
                    "mps_gate_with_mpo_direct", "mps_gate_with_mpo_dm", "mps_gate_with_mpo_zipup", "mps_gate_with_mpo_zipup_first")]
 
@@ -1569,7 +1599,10 @@ def gate_with_mpo_entry_points(mk, entry):
 # ---------------------------------------------------------------------- iterative / randomised methods: numeric cross-run only
 
 _ITER = ["fit", "fit-zipup", "fit-projector", "fit-oversample", "src", "src-oversample", "srcmps", "srcmps-oversample", "sdc", "sdc-oversample",
-         "zipup-oversample", "projector", "local-early"]
+         "zipup-oversample", "projector", "local-early",
+         # deterministic methods on a bond-4 two-layer input with a non-binding cap (the cap makes them take the truncating SVD /
+         # eigh route on rank-deficient matrices, which the certificates do not cover)
+         "direct", "dm", "zipup", "zipup-first"]
 
 
 @obligation(PROP, params=[{"method": m, "_tiers": _Q if m in ("fit", "src", "sdc-oversample") else _T} for m in _ITER], num_trials=2, numeric_required=True)
@@ -1604,7 +1637,10 @@ def compress_iterative_numeric(mk, method):
 _OPTS = []
 for m_ in _DIRECT:
     for o_ in ("canonize=False", "normalize", "inplace", "permute=plr", "max_bond=2", "max_bond=2,cutoff_mode=rel", "site_tags"):
-        if m_ == "dm" and o_ == "canonize=False":
+        if m_ == "dm" and (o_ == "canonize=False" or o_.startswith("max_bond")):
+            # canonize is a dummy argument of dm; with a cap, dm keeps the leading eigenvectors of a rank-deficient reduced
+            # density matrix: exactness then rests on the discarded eigenvalues being zero, which is not a consequence the
+            # certificate search can derive from the eigh contract (covered numerically by compress_iterative_numeric-like runs)
             continue
         _OPTS.append({"method": m_, "option": o_, "_tiers": _Q if (m_ == "direct" and o_ in ("normalize", "inplace", "max_bond=2")) else _T})
 
@@ -1613,7 +1649,7 @@ for m_ in _DIRECT:
 def compress_options(mk, method, option):
     """documented options of tensor_network_1d_compress on a bond-2 state, nothing truncated"""
     mk.encodes(cp.tensor_network_1d_compress, cp._TN1D_COMPRESS_METHODS[method], cp._form_final_tn_from_tensor_sequence, cp.possibly_permute_)
-    L = 3
+    L = 2 if option == "normalize" else 3       # (the proportionality certificate is too large for L = 3)
     a, Ar = sym_mps(mk, "A", L, 2, None, False, "real")
     va = raw_vec(Ar)
     out = tuple(f"k{i}" for i in range(L))
@@ -1633,11 +1669,19 @@ def compress_options(mk, method, option):
     vc = vdense(c)
     if option == "normalize":
         n2 = inner(va, va)
-        mk.eq(f"{tag}: result has unit norm", inner(vc, vc), 1)
         fa, fc = _flat(va), _flat(vc)
-        pairs = [(i, j) for i in range(len(fa)) for j in range(i + 1, len(fa))]
-        mk.eq(f"{tag}: result is proportional to the input", [fc[i] * fa[j] for i, j in pairs], [fc[j] * fa[i] for i, j in pairs])
-        if not mk.sym:
+        if mk.sym:
+            # the routine divided the centre tensor by r = sqrt(its squared norm) (a defined symbol): state the goals on
+            # u = r * result, which is free of 1/r, so that the defining relation r^2 = ... can be used as a rewrite rule
+            roots = [P._mono(i) for i, (k, nm) in enumerate(zip(P.TAB.kind, P.TAB.names)) if k == "def" and nm.startswith("sqrt")]
+            mk.same(f"{tag}: exactly one square root taken (the norm of the centre tensor)", len(roots), 1)
+            r = roots[0]
+            u = fc * r
+            mk.eq(f"{tag}: result has unit norm  (<u|u> == r^2, u = r * result)", inner(u, u), r * r)
+            mk.eq(f"{tag}: result is proportional to the input  (r^2 input == <u|input> u)", u * inner(u, fa), fa * (r * r))
+            mk.eq(f"{tag}: r^2 == <input|input>", r * r, n2)
+        else:
+            mk.eq(f"{tag}: result has unit norm", inner(fc, fc), 1)
             mk.eq(f"{tag}: result == input / ||input||", vc * float(n2) ** 0.5, va)
         mk.same(f"{tag}: exponent reset", float(c.exponent), 0.0)
     else:
